@@ -5,7 +5,7 @@ From Http Require Import Model.Bytes Model.Utf8 Model.Num Model.Headers Model.Re
      Model.Chunked Model.Response
      Spec.HeaderGrammar Spec.ChunkedGrammar Spec.RequestGrammar Spec.ResponseGrammar
      Proofs.BytesLemmas Proofs.HeaderAlgebra Proofs.HeaderGrammarProofs Proofs.ChunkGrammar
-     Proofs.ReqGrammar Proofs.RespGrammar Proofs.NumShow Proofs.Utf8Lemmas.
+     Proofs.ReqGrammar Proofs.RespGrammar Proofs.NumShow Proofs.Utf8Lemmas Proofs.Utf8Split.
 
 (* ---- headers: generation is the header-block grammar without folding ---- *)
 Definition to_field (h : header) : field :=
@@ -58,6 +58,39 @@ Proof.
   rewrite Hf. reflexivity.
 Qed.
 
+(* a prefix without CR or LF does not create or hide a CRLF *)
+Lemma find_crlf_clean_prefix a b :
+  Forall (fun x => x <> CR /\ x <> LF) a ->
+  find_crlf (a ++ b) = option_map (fun i => length a + i) (find_crlf b).
+Proof.
+  induction 1 as [|x a [Hc Hl] _ IH]; [cbn [app length]; destruct (find_crlf b); reflexivity|].
+  cbn [app]. destruct (a ++ b) as [|y t] eqn:E.
+  - destruct a; [|discriminate]. simpl in E. subst b. reflexivity.
+  - rewrite find_crlf_cons2.
+    assert (Hx : N.eqb x CR = false) by (apply N.eqb_neq; exact Hc). rewrite Hx. cbn [andb].
+    rewrite IH. destruct (find_crlf b); reflexivity.
+Qed.
+
+Lemma is_line_iff s : is_line s <-> find_crlf s = None.
+Proof.
+  unfold is_line. split.
+  - intros H. destruct (find_crlf s) as [i|] eqn:E; [|reflexivity].
+    rewrite (find_crlf_app s CRLF i E) in H. pose proof (find_crlf_bound _ _ E). inversion H. lia.
+  - intros H. destruct (find_crlf (s ++ CRLF)) as [i|] eqn:E.
+    + pose proof (find_crlf_bound _ _ E) as B. rewrite app_length in B. simpl in B.
+      pose proof (find_crlf_app_none s CRLF i H E) as L.
+      destruct (Nat.eq_dec i (length s)) as [->|Hne]; [reflexivity|].
+      exfalso. assert (Hi : S i = length s) by lia.
+      destruct s as [|a s'] using rev_ind; [simpl in Hi; lia|].
+      rewrite app_length in Hi. simpl in Hi. assert (i = length s') by lia. subst i.
+      pose proof (find_crlf_at _ _ E) as At.
+      rewrite <- app_assoc in At. rewrite skipn_app_exact in At. inversion At.
+    + exfalso. clear H. induction s as [|a s IH]; [discriminate|].
+      cbn [app] in E. destruct (s ++ CRLF) as [|y t] eqn:E2; [destruct s; discriminate|].
+      rewrite find_crlf_cons2 in E. destruct (N.eqb a CR && N.eqb y LF)%bool; [discriminate|].
+      destruct (find_crlf (y :: t)); [discriminate|]. apply IH. reflexivity.
+Qed.
+
 (* ---- requests ---- *)
 Section Req.
   Variable uri : Type.
@@ -69,8 +102,13 @@ Section Req.
   Definition uri_ok (u : uri) : Prop :=
     uri_parse (uri_show u) = Some u /\ uri_show u <> [] /\ forallb is_graphic (uri_show u) = true.
 
+  (* a method the parser stores: non-empty (stated separately), no SP, valid UTF-8, no CRLF
+     inside.  Every graphic-ASCII token qualifies (graphic_method_ok). *)
+  Definition method_ok (m : bytes) : Prop :=
+    find_byte SP m = None /\ utf8_valid m = true /\ find_crlf m = None.
+
   Definition WfRequest (cfg : rcfg) (v : req_value uri) : Prop :=
-    v_method v <> [] /\ forallb is_graphic (v_method v) = true /\
+    v_method v <> [] /\ method_ok (v_method v) /\
     uri_ok (v_target v) /\
     over_limit (length (request_line (v_method v) (uri_show (v_target v)))) (rl cfg) = false /\
     Forall (hdr_wf (hl cfg)) (v_headers v) /\ over_limit 2 (hl cfg) = false /\
@@ -110,6 +148,25 @@ Section Req.
     rewrite app_nil_r in E. exact E.
   Qed.
 
+  Lemma graphic_method_ok m : forallb is_graphic m = true -> method_ok m.
+  Proof.
+    intros H. split; [apply graphic_no_sp; exact H|]. pose proof (graphics_vchars _ H) as Hv.
+    split; [apply vchars_utf8_valid; exact Hv|]. apply (proj1 (is_line_iff _)). apply vchars_is_line. exact Hv.
+  Qed.
+
+  Lemma request_line_wellformed meth tstr :
+    method_ok meth -> forallb is_graphic tstr = true ->
+    is_line (request_line meth tstr) /\ utf8_valid (request_line meth tstr) = true.
+  Proof.
+    intros [_ [Hu Hc]] Ht.
+    assert (Hv : forallb is_vchar ([SP] ++ tstr ++ [SP] ++ HTTP11) = true).
+    { rewrite !forallb_app. rewrite (graphics_vchars _ Ht). reflexivity. }
+    unfold request_line. split.
+    - apply (proj2 (is_line_iff _)). apply find_crlf_app_both_none; [exact Hc| |reflexivity].
+      apply (proj1 (is_line_iff _)). apply vchars_is_line. exact Hv.
+    - rewrite utf8_valid_app by exact Hu. apply vchars_utf8_valid. exact Hv.
+  Qed.
+
   Theorem generated_request_is_request cfg v :
     WfRequest cfg v ->
     exists g, generate_request cfg v = Some g /\ IsRequest uri uri_parse cfg g v.
@@ -119,14 +176,12 @@ Section Req.
     eexists. split; [reflexivity|].
     destruct (to_fields_ok (hl cfg) (v_headers v) Hhs) as [Hfs Hmap].
     unfold IsRequest. exists (uri_show (v_target v)), (map to_field (v_headers v)).
-    pose proof (request_line_vchars _ _ Hmg Hug) as Hlv.
+    destruct (request_line_wellformed _ _ Hmg Hug) as [Hil Hutf].
     split; [|split; [|split; [|split]]].
     - unfold request_line. rewrite hdr_generate_block. rewrite <- !app_assoc. reflexivity.
     - unfold request_line_ok. repeat split; try assumption.
-      + apply graphic_no_sp. exact Hmg.
+      + apply Hmg.
       + apply graphic_no_sp. exact Hug.
-      + apply vchars_is_line. exact Hlv.
-      + apply vchars_utf8_valid. exact Hlv.
     - split; assumption.
     - symmetry. exact Hmap.
     - cbv zeta in *. rewrite <- hdr_generate_block. exact Hbody.
@@ -160,39 +215,6 @@ Definition WfResponse (v : resp_value) : Prop :=
 
 Definition generate_response (v : resp_value) : bytes :=
   resp_generate (w_code v) (w_reason v) (w_headers v) (w_body v).
-
-(* a prefix without CR or LF does not create or hide a CRLF *)
-Lemma find_crlf_clean_prefix a b :
-  Forall (fun x => x <> CR /\ x <> LF) a ->
-  find_crlf (a ++ b) = option_map (fun i => length a + i) (find_crlf b).
-Proof.
-  induction 1 as [|x a [Hc Hl] _ IH]; [cbn [app length]; destruct (find_crlf b); reflexivity|].
-  cbn [app]. destruct (a ++ b) as [|y t] eqn:E.
-  - destruct a; [|discriminate]. simpl in E. subst b. reflexivity.
-  - rewrite find_crlf_cons2.
-    assert (Hx : N.eqb x CR = false) by (apply N.eqb_neq; exact Hc). rewrite Hx. cbn [andb].
-    rewrite IH. destruct (find_crlf b); reflexivity.
-Qed.
-
-Lemma is_line_iff s : is_line s <-> find_crlf s = None.
-Proof.
-  unfold is_line. split.
-  - intros H. destruct (find_crlf s) as [i|] eqn:E; [|reflexivity].
-    rewrite (find_crlf_app s CRLF i E) in H. pose proof (find_crlf_bound _ _ E). inversion H. lia.
-  - intros H. destruct (find_crlf (s ++ CRLF)) as [i|] eqn:E.
-    + pose proof (find_crlf_bound _ _ E) as B. rewrite app_length in B. simpl in B.
-      pose proof (find_crlf_app_none s CRLF i H E) as L.
-      destruct (Nat.eq_dec i (length s)) as [->|Hne]; [reflexivity|].
-      exfalso. assert (Hi : S i = length s) by lia.
-      destruct s as [|a s'] using rev_ind; [simpl in Hi; lia|].
-      rewrite app_length in Hi. simpl in Hi. assert (i = length s') by lia. subst i.
-      pose proof (find_crlf_at _ _ E) as At.
-      rewrite <- app_assoc in At. rewrite skipn_app_exact in At. inversion At.
-    + exfalso. clear H. induction s as [|a s IH]; [discriminate|].
-      cbn [app] in E. destruct (s ++ CRLF) as [|y t] eqn:E2; [destruct s; discriminate|].
-      rewrite find_crlf_cons2 in E. destruct (N.eqb a CR && N.eqb y LF)%bool; [discriminate|].
-      destruct (find_crlf (y :: t)); [discriminate|]. apply IH. reflexivity.
-Qed.
 
 Lemma digits_clean s : forallb is_digit s = true -> Forall (fun x => x <> CR /\ x <> LF) s.
 Proof.
